@@ -193,8 +193,10 @@ func (p *Pred) destroyed(v *Val) {
 		}
 		p.Events = append(p.Events, fmt.Sprintf("%sR.ResourceDestroyed(uuid: UInt64(‹%s›), id: %s, n: %s, kids: Int(%d))",
 			worldPrefix, v.U, v.F["id"].Canon(), v.F["n"].Canon(), len(v.F["kids"].Elems)))
+		// the default destruction event inherited from the interface R conforms to
+		p.Events = append(p.Events, fmt.Sprintf("%sRI.ResourceDestroyed(tag: \"ri\", rid: %s)", worldPrefix, v.F["id"].Canon()))
 	case "V":
-		p.Events = append(p.Events, fmt.Sprintf("%sV.ResourceDestroyed(uuid: UInt64(‹%s›), bal: %s)", worldPrefix, v.U, v.F["bal"].Canon()))
+		p.Events = append(p.Events, fmt.Sprintf("%sV.ResourceDestroyed(uuid: UInt64(‹%s›), bal: %s, obal: ?(%s))", worldPrefix, v.U, v.F["bal"].Canon(), v.F["bal"].Canon()))
 	case "Arr", "CArr":
 		for _, e := range v.Elems {
 			p.destroyed(e)
